@@ -4,6 +4,7 @@ package node
 
 import (
 	"context"
+	"time"
 	"os"
 	"database/sql"
 	"fmt"
@@ -119,4 +120,34 @@ func cloneTable(a confBalTable) confBalTable {
 		o[k] = append([]uint64(nil), v...)
 	}
 	return o
+}
+
+func confBatch(t testing.TB, r *rand.Rand, nTx int) *fat2.TransactionBatch {
+	key, err := factom.GenerateFsAddress()
+	if err != nil {
+		t.Fatal(err)
+	}
+	var txs []fat2.Transaction
+	for i := 0; i < nTx; i++ {
+		var tr fat2.Transaction
+		tr.Input.Address = key.FAAddress()
+		tr.Input.Type = fat2.PTickerUSD
+		tr.Input.Amount = 10
+		if r.Intn(3) == 0 {
+			tr.Conversion = fat2.PTickerEUR
+		} else {
+			n := 1 + r.Intn(3)
+			for k := 0; k < n; k++ {
+				tr.Transfers = append(tr.Transfers, fat2.AddressAmountTuple{Address: confAddr(r.Intn(3)), Amount: uint64(10 / n)})
+			}
+			tr.Transfers[0].Amount += 10 - uint64(n)*uint64(10/n)
+		}
+		txs = append(txs, tr)
+	}
+	e := vfSignedEntry(t, key, txs, time.Time{})
+	b, err := fat2.NewTransactionBatch(e, 300000)
+	if err != nil {
+		t.Fatalf("batch: %v", err)
+	}
+	return b
 }
